@@ -162,6 +162,13 @@ Definition spec_pull_ok (i : bool * list source * list str) (r : val) : bool :=
       end
   end.
 
+(* what a (possibly nested) group denotes: x is a concrete member reachable from g through at most
+   n-1 references; independent of the order in which the groups are defined *)
+Definition is_ref (m : str) : bool := match m with c :: _ => N.eqb c AT | [] => false end.
+Inductive reach (raw : list (str * list str)) : nat -> str -> str -> Prop :=
+| reach_here n g x : In x (lookup g raw) -> is_ref x = false -> reach raw (S n) g x
+| reach_ref n g h x : In (AT :: h) (lookup g raw) -> reach raw n h x -> reach raw (S n) g x.
+
 (* the license filter: a package is accepted iff some alternative of its LICENSE consists only of
    licenses that the stream "ACCEPT_LICENSE tokens, then the tokens of the package.license
    entries matching THIS package" leaves accepted — independently of any earlier query *)
@@ -197,4 +204,5 @@ Definition spec_case_ok (c : case_in) (r : val) : bool :=
   | CPull i => spec_pull_ok i r
   | CNiPull _ => true
   | CLicFilter i => spec_licfilter_ok i r
+  | CGroups _ => true
   end.
